@@ -16,6 +16,8 @@
 """
 Service exception handling (WMS exceptions, XML, in_image, etc.).
 """
+import re
+
 from mapproxy.exception import ExceptionHandler, XMLExceptionHandler
 from mapproxy.response import Response
 from mapproxy.image.message import message_image
@@ -23,6 +25,8 @@ from mapproxy.image.opts import ImageOptions
 import mapproxy.service
 from mapproxy.template import template_loader
 get_template = template_loader(mapproxy.service.__package__, 'templates')
+
+_mime_type_re = re.compile(r'^[A-Za-z0-9.+-]+/[A-Za-z0-9.+-]+(\s*;\s*[A-Za-z0-9.+-]+=[A-Za-z0-9.+-]+)*\Z')
 
 
 class WMSXMLExceptionHandler(XMLExceptionHandler):
@@ -70,6 +74,10 @@ class WMSImageExceptionHandler(ExceptionHandler):
         request = request_error.request
         params = request.params
         format = params.format
+        content_type = params.format_mime_type
+        if not content_type or not _mime_type_re.match(content_type):
+            # never send unvalidated request data as a response header
+            format, content_type = 'png', 'image/png'
         size = params.size
         if size is None:
             size = (256, 256)
@@ -78,7 +86,7 @@ class WMSImageExceptionHandler(ExceptionHandler):
         bgcolor = WMSImageExceptionHandler._bgcolor(request.params)
         image_opts = ImageOptions(format=format, bgcolor=bgcolor, transparent=transparent)
         result = message_image(request_error.msg, size=size, image_opts=image_opts)
-        return Response(result.as_buffer(), content_type=params.format_mime_type)
+        return Response(result.as_buffer(), content_type=content_type)
 
     @staticmethod
     def _bgcolor(params):
